@@ -97,6 +97,13 @@ def extra_entries():
     # integer-valued constructor arguments
     add('PointwiseAffine/int', lambda: T.PointwiseAffineTransform(shift=1, scale=2), [3])
     add('PointwiseAffine/int-tensor', lambda: T.PointwiseAffineTransform(shift=torch.tensor([1, 0, -2]), scale=torch.tensor([2, 3, -4])), [3])
+    # autoregressive layers as black boxes (the transform-level model is fed the conditioner's outputs, so it cannot see a conditioner
+    # that looks at the variable it transforms): one feature, two features, random masks
+    add('MaskedAffineAR-blackbox/F1', lambda: T.MaskedAffineAutoregressiveTransform(1, 5, num_blocks=1), [1])
+    add('MaskedAffineAR-blackbox/F1/ff', lambda: T.MaskedAffineAutoregressiveTransform(1, 5, num_blocks=2, use_residual_blocks=False), [1])
+    add('MaskedRQAR-blackbox/F1', lambda: T.MaskedPiecewiseRationalQuadraticAutoregressiveTransform(1, 5, num_bins=3, num_blocks=1, tails='linear', tail_bound=3.0), [1])
+    add('MaskedAffineAR-blackbox/F2', lambda: T.MaskedAffineAutoregressiveTransform(2, 5, num_blocks=1), [2])
+    add('MaskedAffineAR-blackbox/F4/random', lambda: T.MaskedAffineAutoregressiveTransform(4, 9, num_blocks=2, use_residual_blocks=False, random_mask=True), [4])
     # wrappers around CONTEXT-dependent parts (both directions must hand the context on)
     add('InverseTransform/ctx-AR', lambda: T.InverseTransform(T.MaskedAffineAutoregressiveTransform(3, 6, context_features=2, num_blocks=1)), [3], ctx=2,
         extra={'no_inverse_oracle': False})
